@@ -337,7 +337,8 @@ def run_c20(args, inp, rng):
                     # a burst: 2..3 calls requested back to back (all chosen from the same listing, same clock reading)
                     # (single-step edits of ONE directory: a rename / relink is several queued steps, between which calls
                     # requested later legitimately run)
-                    ops = [o] if o["op"] != "move" else []
+                    ops = [o] if (o["op"] != "move" and o["via"] == "rw") else []      # (a listing through the read-only
+                    # handle shows the children diminished: the Spec's listings are those of the write handle)
                     want = brng.choice([2, 2, 3])
                     tries = 0
                     while ops and todo and todo[0] is None and len(ops) < want and tries < 40:
